@@ -113,6 +113,15 @@ def gen_cases(rng, tier):
             ops += [k] + [f2b(rng.choice([0.0, 1.0, 2.5, -3.0, 10.0])) for _ in range(n)]
         ops += [1, f2b(5.0), f2b(6.0)]
         cases.append(("c14_builder", ops))
+    # every builder-reuse case gets a companion: the operations after its last top-level clear / Path::clear / default(), run on
+    # a brand-new builder, must produce the same path (post_oracle)
+    comp = []
+    for s_, a_ in cases:
+        if s_ == "c14_builder":
+            suf = suffix_after_last_reset(a_)
+            if suf is not None and suf != a_:
+                comp.append((s_, suf))
+    cases += comp
     for i in range(60 if q else 800):
         w, h = rng.choice([(24, 24), (40, 17)])
         cases.append(("draw_hist", [rng.getrandbits(40), rng.getrandbits(40), w, h, rng.randrange(7), rng.randrange(7), 16 if i % 4 == 0 else 2]))
@@ -122,7 +131,54 @@ def gen_cases(rng, tier):
         s1, s2 = rng.sample([0.25, 0.5, 1.0, 2.0, 4.0, 10.0], 2)
         ops = rand_path_ops(rng, 32 / s2, 32 / s2, 24 / s2, curves=True, grid=16.0)
         cases.append(("stroke_repeat", [f2b(rng.choice([2.0, 4.0, 8.0]) / s2), f2b(s1), f2b(s2), i % 2] + ops))
+    # one source Pixmap drawn, changed in place and drawn again (something remembered about an image by its address)
+    for i in range(60 if q else 800):
+        cases.append(("pattern_reuse", [rng.getrandbits(40), rng.randint(1, 9), rng.randint(1, 9), rng.choice([16, 24, 33]), rng.choice([12, 20]),
+                                        rng.randrange(3), rng.randrange(10)]))
     return cases
+
+
+_AR = {0: 2, 1: 2, 2: 4, 3: 6, 4: 0, 5: 4, 6: 4, 7: 3, 9: 0, 10: 0, 11: 0}
+
+
+def suffix_after_last_reset(a):
+    """the operations after the last top-level 9 (clear) / 10 (finish + Path::clear) / 11 (default()); None when the
+    sequence does not parse cleanly or holds no reset"""
+    i, last = 0, None
+    while i < len(a):
+        k = a[i]
+        if k == 8:
+            if i + 1 >= len(a) or a[i + 1] < 0 or i + 2 + a[i + 1] > len(a):
+                return None
+            i += 2 + a[i + 1]
+            continue
+        if k not in _AR or i + 1 + _AR[k] > len(a):
+            return None
+        if k in (9, 10, 11):
+            last = i + 1
+        i += 1 + _AR[k]
+    return None if last is None else a[last:]
+
+
+def post_oracle(cases, outs):
+    idx = {}
+    for i, (s_, a_) in enumerate(cases):
+        if s_ == "c14_builder":
+            idx.setdefault(tuple(a_), i)
+    bad = []
+    for i, (s_, a_) in enumerate(cases):
+        if s_ != "c14_builder":
+            continue
+        suf = suffix_after_last_reset(a_)
+        if suf is None or suf == a_:
+            continue
+        j = idx.get(tuple(suf))
+        if j is None or outs[i].startswith(("PANIC", "CRASH", "HANG")) or outs[j].startswith(("PANIC", "CRASH", "HANG")):
+            continue
+        if outs[i].strip() != outs[j].strip():
+            bad.append((i, "a builder reused after clear / Path::clear / default() builds %s where a new builder given the same later operations builds %s" % (
+                outs[i].strip()[:120], outs[j].strip()[:120])))
+    return bad
 
 
 def oracle(suite, args, out):
@@ -135,6 +191,8 @@ def oracle(suite, args, out):
         return "a reused PathStroker returned a different result from a fresh one in %d of %d calls (first: call %d)" % (o[2], o[0], o[3])
     if suite == "stroke_repeat" and len(o) == 2 and o[1] > 0:
         return "%d bytes of a stroke differ depending on whether the same path was stroked under another transform before on the same thread" % o[1]
+    if suite == "pattern_reuse" and len(o) == 2 and o[1] > 0:
+        return "%d bytes differ between drawing a source pixmap that was drawn before and then changed in place and drawing a new allocation with the same pixels" % o[1]
     if suite == "draw_hist" and len(o) == 4:
         if o[1] > 0:
             return "%d bytes differ between drawing on the pixmap a previous scene left and on a copy of the same bytes" % o[1]
@@ -157,6 +215,8 @@ def nontrivial_tag(suite, args, out):
         return "hist" if len(o) == 4 and o[1].isdigit() and int(o[1]) > 1 else None
     if suite == "draw_hist":
         return "draw" if len(o) == 4 and o[0] != "0" else None
+    if suite == "pattern_reuse":
+        return "pattern-reuse" if len(o) == 2 and o[0] not in ("0", "-3") else None
     if suite == "stroke_repeat":
         return "repeat" if len(o) == 2 and o[0] not in ("0", "-3", "-4") else None
     return "builder-reuse" if len(o) > 3 else None
